@@ -8,12 +8,12 @@ Import ListNotations.
 Open Scope string_scope.
 
 (* block/manager.go exponentialBackoff; durations in ms as in Model/Submitter.v: initialBackoff = 100 ms *)
-Lemma go_exponentialBackoff : forall (c : Submitter.cfg) (g : genesis) (b : N),
+Lemma go_exponentialBackoff : forall (c : Submitter.cfg) (g : genesis) hs ds (b : N),
   run_fun gen_funs [("initialBackoff", VZ (Z.of_N Submitter.initial_backoff))] "Manager.exponentialBackoff"
-          (Some (VMgr {| mg_genesis := g; mg_da_block_time := Z.of_N (Submitter.c_bt c) |})) [VZ (Z.of_N b)] =
+          (Some (VMgr {| mg_genesis := g; mg_da_block_time := Z.of_N (Submitter.c_bt c); mg_hseen := hs; mg_dseen := ds |})) [VZ (Z.of_N b)] =
   Some [VZ (Z.of_N (Submitter.exp_backoff c b))].
 Proof.
-  intros c g b; destruct c as [bt ttl]. unfold Submitter.exp_backoff, Submitter.initial_backoff.
+  intros c g hs ds b; destruct c as [bt ttl]. unfold Submitter.exp_backoff, Submitter.initial_backoff.
   glazy; repeat step; repeat anyatom; finish.
 Qed.
 
@@ -27,3 +27,7 @@ Lemma go_isEmpty_store_error : forall last,
   Some [VBool false].
 Proof. intros; glazy; reflexivity. Qed.
 
+(* every lemma is closed under the global context (bin/tr-golite fails on any "Axioms:" line) *)
+Print Assumptions go_exponentialBackoff.
+Print Assumptions go_isEmpty.
+Print Assumptions go_isEmpty_store_error.
